@@ -11,15 +11,13 @@ Rows(rk) == Range(rk.rows)
 All(r, P(_)) == \A rk \in Range(r.ranks) : P(rk)
 
 \* ---- C14
+\* one row per launch and one per activity of every linked pair (as multisets of (stream, timestamp)); rows carry the pid / tid of a
+\* device activity of that stream.  Rows are not identified by ids: how the series is indexed is not part of the statement.
 QRowsOK(rk) ==
     LET R == Rows(rk)  It == QueueItems(R)  S == rk.q IN
     /\ Len(S) = 2 * Cardinality(It)
-    /\ Cardinality({ S[j].id : j \in DOMAIN S }) = Len(S)
-    /\ \A j \in DOMAIN S :
-          \E x \in It : /\ S[j].key = x.key
-                        /\ \/ (S[j].id = x.hid /\ S[j].ts = x.up)
-                           \/ (S[j].id = x.kid /\ S[j].ts = x.down)
-                        /\ S[j].pid = ById(R, x.kid).pid /\ S[j].tid = ById(R, x.kid).tid
+    /\ SeriesRows(S, It)
+    /\ \A j \in DOMAIN S : \E x \in It : x.key = S[j].key /\ S[j].pid = ById(R, x.kid).pid /\ S[j].tid = ById(R, x.kid).tid
 CEMatch(events, S, m, byName) ==
     /\ Len(events) = Len(S)
     /\ \A j \in DOMAIN S : /\ events[j].ts = S[j].ts + m
